@@ -313,6 +313,12 @@ type Interp struct {
 // one type switch / kind switch).
 var leafPredNames = map[string]bool{"nullable": true, "nillable": true, "isOrdered": true}
 
+// baselinePredNames: the predicates over go/types values that exist on the tree the rules were confirmed against; they keep
+// the treatment they were confirmed with (oracle answers tabulated by G9, or interpretation for leafPredNames).
+var baselinePredNames = map[string]bool{"IsComparable": true, "IsError": true, "canCopy": true, "canEqual": true,
+	"compareMethodInputParam": true, "equalMethodInputParam": true, "hasDeepCopyMethod": true, "hasEqualMethod": true,
+	"hasHashMethod": true, "hasGoStringMethod": true, "identical": true, "eq": true, "isBasicPointer": true, "isOrdered": true, "nullable": true, "nillable": true}
+
 type predCall struct {
 	name string
 	arg  *VOpaque
@@ -2747,6 +2753,21 @@ func (in *Interp) isPurePredicate(f *VFunc) bool {
 	}
 	if leaf && leafPredNames[f.Decl.Name.Name] {
 		return false
+	}
+	// a leaf predicate outside the baseline (a helper a later change introduced, like isBasic(typ)) that is a plain case
+	// analysis — no loop — is interpreted as well: its answer must stay tied to the kinds the path establishes
+	if leaf && !baselinePredNames[f.Decl.Name.Name] {
+		loops := false
+		ast.Inspect(f.Decl.Body, func(n ast.Node) bool {
+			switch n.(type) {
+			case *ast.ForStmt, *ast.RangeStmt:
+				loops = true
+			}
+			return true
+		})
+		if !loops {
+			return false
+		}
 	}
 	if commaOK {
 		return true
